@@ -387,6 +387,61 @@ Proof.
   - apply N.leb_le. assumption.
 Qed.
 
+(* hierarchical.NewHierarchicalConjunctiveThresholdAccessStructure + ThresholdLevel.UnmarshalCBOR:
+   at least one level; thresholds positive and strictly increasing; every level non-empty,
+   without shareholder 0, without repetition, disjoint from the earlier levels; each cumulative
+   threshold is at most the number of shareholders seen so far *)
+Inductive hier_ok : Z -> list N -> list item -> Prop :=
+| hier_nil : forall cur seen, hier_ok cur seen []
+| hier_cons : forall cur seen l ls,
+    let t := int_of (fld k_threshold l) in
+    let ps := ids_of (fld k_parties l) in
+    (0 < t)%Z -> (cur < t)%Z -> ps <> [] -> ~ In 0 ps ->
+    (forall p, In p ps -> ~ In p seen) -> NoDup ps ->
+    (t <= lenZ (dedupN (seen ++ ps)))%Z ->
+    hier_ok t (dedupN (seen ++ ps)) ls -> hier_ok cur seen (l :: ls).
+
+Lemma nodupN_NoDup l : nodupN l = true -> NoDup l.
+Proof.
+  induction l as [|a l IH]; cbn [nodupN]; intros H; [constructor|].
+  apply andb_true_iff in H. destruct H as [Ha Hl]. constructor; [|exact (IH Hl)].
+  intros Hin. apply memN_In in Hin. rewrite Hin in Ha. discriminate.
+Qed.
+
+Lemma hier_levels_ok : forall ls cur seen,
+  forallb (fun r : rule => snd r) (hier_levels cur seen ls) = true -> hier_ok cur seen ls.
+Proof.
+  induction ls as [|l ls IH]; intros cur seen H; [constructor|].
+  cbn [hier_levels] in H. cbv zeta in H.
+  apply forallb_app_true in H. destruct H as [H Hrest]. cbn [forallb snd] in H.
+  repeat (apply andb_true_iff in H; destruct H as [? H]).
+  repeat match goal with Ha : (_ && _) = true |- _ => apply andb_true_iff in Ha; destruct Ha end.
+  repeat match goal with Hn : negb _ = true |- _ => apply negb_true_iff in Hn end.
+  apply hier_cons.
+  - apply Z.ltb_lt. assumption.
+  - apply Z.ltb_lt. assumption.
+  - intros E. match goal with He : (len (ids_of _) =? 0) = false |- _ => rewrite E in He; cbn in He; discriminate end.
+  - intros Hin. apply memN_In in Hin.
+    match goal with Hm : memN 0 (ids_of _) = false |- _ => rewrite Hin in Hm; discriminate end.
+  - intros p Hp Hs.
+    match goal with Hf : forallb (fun p => negb (memN p seen)) _ = true |- _ =>
+      rewrite forallb_forall in Hf; specialize (Hf _ Hp) end.
+    apply memN_In in Hs. rewrite Hs in *. discriminate.
+  - apply nodupN_NoDup. assumption.
+  - apply Z.leb_le. assumption.
+  - apply IH. exact Hrest.
+Qed.
+
+Theorem hierarchical_valid_spec : forall x,
+  valid THierarchical x = true ->
+  let ls := arr_of (fld k_levels (untag x)) in ls <> [] /\ hier_ok 0 [] ls.
+Proof.
+  intros x H. unfold valid in H. cbn [rules_of] in H. unfold hierarchical_rules in H.
+  cbn [forallb snd] in H. apply andb_true_iff in H. destruct H as [Hn H]. cbv zeta. split.
+  - intros E. rewrite E in Hn. cbn in Hn. discriminate.
+  - apply hier_levels_ok. exact H.
+Qed.
+
 (* ------------------------------------------------------------------ *)
 (* the field lists of the hand-written schemas are exactly the wire field names (and omitempty
    flags) of the DTO structs as regenerated from the source (gen/SerdeDtos.v) *)
@@ -427,6 +482,11 @@ Definition dto_table : list (schema * list (bytes * bool)) :=
     (schema_of (TBaseShard no_curve true), dto_baseshard);
     (schema_of (TEcdsaSig no_curve), dto_ecdsasig);
     (schema_of (TDklsPartial no_curve), dto_dkls23partial);
+    (schema_of (TPedShare no_curve), dto_pedersen_share);
+    (s_elem (s_field k_secret (schema_of (TPedShare no_curve))), dto_pedcom_message);
+    (s_elem (s_field k_blinding (schema_of (TPedShare no_curve))), dto_pedcom_witness);
+    (schema_of (TPedLifted no_curve), dto_pedersen_lifted);
+    (s_elem (s_field k_value (schema_of (TPedLifted no_curve))), dto_pedcom_commitment);
     (schema_of (TMatrix no_curve), dto_matrix);
     (schema_of (TMvMatrix no_curve), dto_mvmatrix);
     (schema_of (TSqMatrix no_curve), dto_sqmatrix);
